@@ -1689,7 +1689,52 @@ func (g *Gen) siteEnv(ci calleeInfo, c *ssa.CallCommon, args []Val) *Env {
 	return env
 }
 
-func (g *Gen) varsAtPoint() map[string]Val { return map[string]Val{} }
+// varsAtPoint: source-level variables visible at the current instruction (for
+// call-site assertions): those of the dominating blocks plus the phis and debug
+// references of the current block up to the instruction.
+func (g *Gen) varsAtPoint() map[string]Val {
+	out := map[string]Val{}
+	if g.curBlk == nil {
+		return out
+	}
+	names, _ := g.varsAt(g.curBlk)
+	for n, v := range names {
+		out[n] = v
+	}
+	for _, in := range g.curBlk.Instrs {
+		if in == g.curIn {
+			break
+		}
+		if phi, ok := in.(*ssa.Phi); ok {
+			if v, have := g.vals[phi]; have && phi.Comment != "" && phi.Comment != "rangeindex" && v.Loc == nil && len(v.Tup) == 0 {
+				out[phi.Comment] = v
+			}
+			continue
+		}
+		d, ok := in.(*ssa.DebugRef)
+		if !ok || d.IsAddr {
+			continue
+		}
+		if _, isIdent := d.Expr.(interface{ IsExported() bool }); !isIdent {
+			continue
+		}
+		id, ok := d.Expr.(interface{ String() string })
+		if !ok {
+			continue
+		}
+		if _, have := g.vals[d.X]; !have {
+			if _, isC := d.X.(*ssa.Const); !isC {
+				continue
+			}
+		}
+		v := g.val(d.X)
+		if v.Loc != nil || len(v.Tup) > 0 {
+			continue
+		}
+		out[id.String()] = v
+	}
+	return out
+}
 
 func (g *Gen) frameCheckMod(ml modLoc) {
 	if ml.base == "" {
